@@ -300,7 +300,7 @@ impl tower::Service<Request<Body>> for Handler {
                 me.log.handled.lock().unwrap().push(Handled {
                     seq: started_seq, server: me.server, conn: me.conn, path_id: parse_id(req.uri().path()), header_id: Some(id), method: req.method().to_string(),
                     path_query: req.uri().path_and_query().map(|p| p.as_str().to_string()).unwrap_or_default(), version: format!("{:?}", req.version()), body_len: 0,
-                    body_digest: digest(&[]), body_matches_pattern: true, host_header: None, authority: None,
+                    body_digest: digest(&[]), body_matches_pattern: true, host_header: req.headers().get("host").and_then(|v| v.to_str().ok()).map(|s| s.to_string()), authority: req.uri().authority().map(|a| a.to_string()),
                     headers: req.headers().iter().map(|(k, v)| (k.to_string(), v.to_str().unwrap_or("?").to_string())).collect(), started_seq, finished: true, tls_sni: None, tls_validated: None,
                 });
                 tokio::spawn(async move {
@@ -562,6 +562,51 @@ pub struct Routes {
     /// taps of every dialed connection, in dial order
     pub taps: Arc<Mutex<Vec<(String, Arc<Mutex<TapBuf>>)>>>,
     pub tap_enabled: bool,
+    /// readiness as a reservation (what a concurrency limit around a transport does): `poll_ready` takes one of a fixed
+    /// number of slots, `call` hands it to the connect future, which gives it back when the connect is over. An instance
+    /// that was made ready and is then dropped gives its slot back as well.
+    pub slots: Option<Arc<Slots>>,
+    pub reservation: Reservation,
+}
+
+pub struct Slots {
+    state: Mutex<(usize, Vec<std::task::Waker>)>,
+}
+
+impl Slots {
+    pub fn new(n: usize) -> Arc<Slots> {
+        Arc::new(Slots { state: Mutex::new((n, Vec::new())) })
+    }
+    fn release(&self) {
+        let wakers = {
+            let mut st = self.state.lock().unwrap();
+            st.0 += 1;
+            std::mem::take(&mut st.1)
+        };
+        for w in wakers {
+            w.wake();
+        }
+    }
+}
+
+/// a slot held by one transport instance (or by the connect future it was handed to); never cloned with the instance
+#[derive(Default)]
+pub struct Reservation {
+    held: Option<Arc<Slots>>,
+}
+
+impl Clone for Reservation {
+    fn clone(&self) -> Self {
+        Reservation::default()
+    }
+}
+
+impl Drop for Reservation {
+    fn drop(&mut self) {
+        if let Some(s) = self.held.take() {
+            s.release();
+        }
+    }
 }
 
 impl Routes {
@@ -584,11 +629,25 @@ impl tower::Service<http::request::Parts> for Routes {
     type Error = RouteError;
     type Future = Pin<Box<dyn Future<Output = Result<TapIo, RouteError>> + Send>>;
 
-    fn poll_ready(&mut self, _cx: &mut Context<'_>) -> Poll<Result<(), Self::Error>> {
+    fn poll_ready(&mut self, cx: &mut Context<'_>) -> Poll<Result<(), Self::Error>> {
+        if let Some(slots) = &self.slots {
+            if self.reservation.held.is_none() {
+                let mut st = slots.state.lock().unwrap();
+                if st.0 == 0 {
+                    st.1.push(cx.waker().clone());
+                    return Poll::Pending;
+                }
+                st.0 -= 1;
+                drop(st);
+                self.reservation.held = Some(slots.clone());
+            }
+        }
         Poll::Ready(Ok(()))
     }
 
     fn call(&mut self, parts: http::request::Parts) -> Self::Future {
+        // the slot travels with the connect
+        let reservation = std::mem::take(&mut self.reservation);
         let authority = parts.uri.authority().map(|a| a.as_str().to_ascii_lowercase()).unwrap_or_default();
         let scheme = parts.uri.scheme_str().unwrap_or("").to_string();
         // an entry "tls|authority" / "plain|authority" (by the scheme the transport is asked for) wins over "authority"
@@ -602,6 +661,7 @@ impl tower::Service<http::request::Parts> for Routes {
         let tap_enabled = self.tap_enabled;
         let req_version = format!("{:?}", parts.version);
         Box::pin(async move {
+            let _reservation = reservation;
             let seq = log.next();
             let res: Result<Braid, RouteError> = match target {
                 None => Err(RouteError(format!("no route for authority {authority:?}"))),
@@ -840,23 +900,41 @@ where
     }
 }
 
+thread_local! {
+    /// builder call order of clients built on this thread: TLS configuration before (true) or after (false) the body types
+    pub static BUILDER_TLS_BEFORE_BODY: std::cell::Cell<bool> = const { std::cell::Cell::new(false) };
+}
+
 pub fn build_client(routes: Routes, pool: Option<hyperdriver::client::PoolConfig>, tls: Option<rustls::ClientConfig>, timeout: Option<std::time::Duration>) -> ClientSvc {
     let pending_polls = PROTOCOL_PENDING_POLLS.with(|c| c.get());
     let b = hyperdriver::Client::builder()
         .with_transport(routes)
         .with_protocol(NotReadyAtOnce { inner: hyperdriver::client::conn::protocol::auto::HttpConnectionBuilder::<ChunkBody>::default(), pending_polls, left: pending_polls })
         .without_redirects()
-        .with_optional_timeout(timeout)
-        .with_body::<ChunkBody, Body>();
-    let b = match pool {
-        Some(p) => b.with_pool(p),
-        None => b.without_pool(),
-    };
-    let b = match tls {
-        Some(t) => b.with_tls(t),
-        None => b.without_tls(),
-    };
-    b.build_service()
+        .with_optional_timeout(timeout);
+    // the builder's methods can be called in any order; the order must not matter
+    if BUILDER_TLS_BEFORE_BODY.with(|c| c.get()) {
+        let b = match tls {
+            Some(t) => b.with_tls(t),
+            None => b.without_tls(),
+        };
+        let b = match pool {
+            Some(p) => b.with_pool(p),
+            None => b.without_pool(),
+        };
+        b.with_body::<ChunkBody, Body>().build_service()
+    } else {
+        let b = b.with_body::<ChunkBody, Body>();
+        let b = match pool {
+            Some(p) => b.with_pool(p),
+            None => b.without_pool(),
+        };
+        let b = match tls {
+            Some(t) => b.with_tls(t),
+            None => b.without_tls(),
+        };
+        b.build_service()
+    }
 }
 
 #[derive(Clone, Debug)]
